@@ -150,9 +150,10 @@ def shard_choice():
     """Small discrete choices enumerated by sharding (concrete per shard): first segment, length of
     the free part, whether the free part goes in front."""
     k = P.shard
-    a = k % NS
-    flen = (k // NS) % (P.F + 1)
-    ffront = (k // (NS * (P.F + 1))) % 2 == 1
+    ns = P.NSEG
+    a = k % ns
+    flen = (k // ns) % (P.F + 1)
+    ffront = (k // (ns * (P.F + 1))) % 2 == 1
     return a, flen, ffront
 
 
@@ -162,7 +163,8 @@ def pre_path(n: int, b: int, c: int, d: int, free: str, rootslash: bool, deffile
         return False
     if not ((0 if a == 0 else 1) <= n <= P.N):
         return False
-    if not (0 <= b < NS and 0 <= c < NS and 0 <= d < NS):
+    ns = P.NSEG
+    if not (0 <= b < ns and 0 <= c < ns and 0 <= d < ns):
         return False
     # unused segment slots are pinned to 0 so that every URL has exactly one encoding
     if (n < 2 and b != 0) or (n < 3 and c != 0) or (n < 4 and d != 0):
@@ -172,9 +174,9 @@ def pre_path(n: int, b: int, c: int, d: int, free: str, rootslash: bool, deffile
 
 @harness(
     pre=pre_path,
-    quick=dict(N=2, F=1, timeout=100, reach_timeout=90),
-    thorough=dict(N=4, F=2, timeout=1400, reach_timeout=200),
-    nshards=dict(quick=48, thorough=72),   # must equal NS * (F+1) * 2
+    quick=dict(N=2, F=1, NSEG=8, timeout=150, reach_timeout=90),
+    thorough=dict(N=3, F=2, NSEG=12, timeout=1400, reach_timeout=200),
+    nshards=dict(quick=32, thorough=72),   # must equal NSEG * (F+1) * 2
     reach=["served", "redirected", "escape_refused", "prefix_sibling_refused", "default_served"],
     units=["web.StaticFileHandler.get", "web.StaticFileHandler.parse_url_path",
            "web.StaticFileHandler.get_absolute_path", "web.StaticFileHandler.validate_absolute_path",
@@ -185,7 +187,7 @@ def pre_path(n: int, b: int, c: int, d: int, free: str, rootslash: bool, deffile
            "normpath for absolute paths",
            "content access via the documented override points (get_content, get_content_size, "
            "get_modified_time, get_content_type, get_content_version)",
-           "URL path = up to N pooled segments ('..','.','','a.txt','d','rootx','/r/secret','\\\\0x','s.txt',"
+           "URL path = up to N segments from the first NSEG entries of the pool ('..','.','','a.txt','d','rootx','/r/secret','\\\\0x','s.txt',"
            "'%2e%2e','/r/rootx','root') joined by '/', plus up to F free code points at the front or the end; "
            "handed to _execute as the already-unquoted routing capture; request path = '/static/' + its wire form (NUL / non-printable free code points percent-encoded)",
            "recording connection, virtual loop, fixed clock, logging off (harness/_sec_rig.py)"],
